@@ -1304,6 +1304,13 @@ func (se *symExec) call(st *state, fr *frame, in *ssa.Call) bool {
 					fr.vals[in] = intConst(int64(len(args[0].Args)))
 					return false
 				}
+				// make([]T, n) with n known on this path (no append can have changed it: the term is still the make)
+				if args[0].Op == "makeslice" && len(args[0].Args) == 1 && b.Name() == "len" {
+					if n, ok := args[0].Args[0].IsIntConst(); ok {
+						fr.vals[in] = intConst(n)
+						return false
+					}
+				}
 				if _, isSlice := c.Args[0].Type().Underlying().(*types.Slice); isSlice && args[0].Op == "const" && args[0].Cval == nil {
 					fr.vals[in] = intConst(0)
 					return false
